@@ -67,7 +67,7 @@ thread_local! {
     static CBS: RefCell<Vec<CbProg>> = const { RefCell::new(Vec::new()) };
     static CB_COUNT: Cell<usize> = const { Cell::new(0) };
     static POLLS: Cell<u32> = const { Cell::new(0) };
-    static LAST_WAKER: RefCell<Option<(u32, std::task::Waker)>> = const { RefCell::new(None) };
+    static LAST_WAKER: RefCell<Option<(u32, crate::OwnWaker)>> = const { RefCell::new(None) };
     static DRIFT: Cell<u32> = const { Cell::new(0) };
 }
 
